@@ -548,7 +548,7 @@ func runHist(cfg *RunCfg) {
 }
 
 func main() {
-	mode := flag.String("mode", "hist", "hist|race|overlap")
+	mode := flag.String("mode", "hist", "hist|race|overlap|redial")
 	cfg := ParseFlags()
 	Quiet()
 	switch *mode {
@@ -558,6 +558,8 @@ func main() {
 		runRace(cfg)
 	case "overlap":
 		runOverlap(cfg)
+	case "redial":
+		runRedial(cfg)
 	default:
 		fmt.Fprintln(os.Stderr, "unknown mode")
 		os.Exit(2)
